@@ -1404,7 +1404,23 @@ class C18Executor(Executor):
             return False
         if breaks(s.body) or any(isinstance(k, _ast.Starred) for k in call.args) or any(k.arg is None for k in call.keywords):
             self.unsupported(s, "loop over a generator helper: break in the body / starred arguments")
+        # round 7: a bare `return` directly inside the helper's LAST statement, when that is a loop without `else`, ends the
+        # generator exactly like `break` of that loop (nothing of the helper runs after it); such returns are executed as the
+        # break they stand for.  Not below a nested loop (break would leave the wrong loop) nor try / with (kept out of subset).
+        real = [x for x in fnode.body if not (isinstance(x, _ast.Expr) and isinstance(x.value, _ast.Constant))]
+        as_break = set()
+        if real and isinstance(real[-1], (_ast.While, _ast.For)) and not real[-1].orelse:
+            def tail_returns(stmts):
+                for x in stmts:
+                    if isinstance(x, _ast.Return) and (x.value is None or (isinstance(x.value, _ast.Constant) and x.value.value is None)):
+                        as_break.add((x.lineno, x.col_offset))
+                    elif isinstance(x, _ast.If):
+                        tail_returns(x.body)
+                        tail_returns(x.orelse)
+            tail_returns(real[-1].body)
         for x in _ast.walk(fnode):
+            if isinstance(x, _ast.Return) and (x.lineno, x.col_offset) in as_break:
+                continue
             if x is not fnode and isinstance(x, (_ast.FunctionDef, _ast.AsyncFunctionDef, _ast.Lambda, _ast.ClassDef, _ast.Return, _ast.Global,
                                                  _ast.Nonlocal, _ast.Await)):
                 self.unsupported(s, f"loop over generator helper {fnode.name}: {type(x).__name__} inside the helper")
@@ -1445,6 +1461,9 @@ class C18Executor(Executor):
         class Ren(_ast.NodeTransformer):
             def visit_Name(self, node):
                 return _ast.copy_location(_ast.Name(id=pre + node.id, ctx=node.ctx), node) if node.id in local else node
+
+            def visit_Return(self, node):
+                return _ast.copy_location(_ast.Break(), node) if (node.lineno, node.col_offset) in as_break else node
         outer = self
 
         def rewrite(stmts, guarded):
